@@ -16,12 +16,18 @@ CcLong  == ("dec" :> <<O("DecText"), O("DecTtxIncon"), O("DecXdsNet"), O("DecNul
            @@ ("fetch" :> <<O("Fetch"), O("Fetch"), O("Fetch")>>) @@ ("switch" :> <<O("Switch"), O("Switch")>>)
 CcBig   == ("dec" :> <<O("DecText"), O("DecXdsNet"), O("DecCmd"), O("DecTtxSame")>>) @@ ("fetch" :> <<O("Fetch"), O("Fetch")>>)
            @@ ("fetch2" :> <<O("Fetch"), O("Fetch")>>) @@ ("switch" :> <<O("Switch"), O("Switch")>>)
+\* time stamp gaps (dropped frames) in the decoding thread while a switch is requested
+CcGap   == ("dec" :> <<O("DecGap"), O("DecText"), O("DecGap"), O("DecNull"), O("DecNull")>>) @@ ("fetch" :> <<O("Fetch")>>)
+           @@ ("switch" :> <<O("Switch"), O("Switch")>>)
 
 \* raw decoder: a decoding thread and threads changing / checking the services
 A(s) == [op |-> "Add", s |-> s]
 R(s) == [op |-> "Remove", s |-> s]
-RdQuick == ("dec" :> <<O("RawDecode"), O("RawDecode")>>) @@ ("add" :> <<A({"ttx"}), A({"vps"})>>)
-           @@ ("rem" :> <<R({"ttx"})>>)
+RdQuick == ("dec" :> <<O("RawDecode"), O("ResizeSame"), O("RawDecode")>>) @@ ("add" :> <<A({"ttx"}), O("AddNothing"), A({"vps"})>>)
+           @@ ("rem" :> <<R({"ttx"}), R({"wss"})>>)
+\* the decoding thread changes the geometry itself between two decodes (others add / remove / check meanwhile)
+RdPaths == ("dec" :> <<O("RawDecode"), O("ResizeZero"), O("RawDecode"), O("Reset"), O("ResizeSame")>>) @@ ("add" :> <<A({"ttx"}), O("AddNothing")>>)
+           @@ ("rem" :> <<R({"ttx"})>>) @@ ("chk" :> <<O("Check")>>)
 RdBig   == ("dec" :> <<O("RawDecode"), O("RawDecode"), O("RawDecode")>>) @@ ("add" :> <<A({"ttx", "cc"}), R({"cc"}), A({"vps"})>>)
            @@ ("rem" :> <<R({"ttx"}), A({"ttx"}), R({"vps"})>>) @@ ("chk" :> <<O("Check"), O("Check")>>)
 RdFour  == ("dec" :> <<O("RawDecode"), O("RawDecode"), O("RawDecode")>>) @@ ("add" :> <<A({"ttx", "cc"}), A({"vps"})>>)
